@@ -224,7 +224,7 @@ MODEL_CTX = ("arg", "arrelem", "assign", "herestr", "redir")
 def evaluate(ctx, cases, use_bash_n=0):
     """runs code (+ model where the context is modelled), returns (mismatches, violations, stats)"""
     subs, problems = X.check_parse_and_resolve(ctx, cases)
-    impl = ctx.impl("xp", [c.impl_fields() for c in cases])
+    impl = X.impl(ctx, "xp", [c.impl_fields() for c in cases])
     midx = [i for i, c in enumerate(cases) if c.ctx in MODEL_CTX]
     mfields = [cases[i].model_fields(subs[i]) for i in midx]
     model = ctx.model("xp", mfields)
@@ -377,7 +377,7 @@ def search(ctx, res):
     ctx.rng = random.Random(ctx.seed + 7)
     try:
         cases, _ = gen_cases(ctx, scale=4.0)
-        impl = ctx.impl("xp", [c.impl_fields() for c in cases])
+        impl = X.impl(ctx, "xp", [c.impl_fields() for c in cases])
         specv = []
         code_results = [X.decode_result(l) for l in impl]
         for c, cr in zip(cases, code_results):
